@@ -95,6 +95,13 @@ CHECKS["C14"] = dict(level="exploration", ref="6/C14",
    note=DEC_NOTE + " Word spellings are valid UTF-8 (invalid byte sequences cannot be represented in JSON at all).",
    technique=TECH + "; strict JSON validation and interface agreement at scheduled instants")
 
+CHECKS["C16"] = dict(level="exploration", ref="6/C16",
+   text="Histories of decoder_add_word (new words, numbered alternates, duplicates, unknown phone, alternate without base, empty word / pronunciation, 1-12 phones, 4200 bulk additions "
+        "across the table growth) interleaved with lookups, grammar loads, alignment texts using the new words and short utterances; a reference map (spelling -> pronunciation, "
+        "alternates per base) is stepped in lock-step and compared with lookups, ids, base links, alternate chains read off the public dict_t, dictionary size and 24 sampled old words "
+        "after every addition; a rejected addition must leave all of it unchanged; hypotheses report base spellings (C03 monitor).",
+   note=DEC_NOTE, technique=TECH + "; lock-step reference map over dictionary mutation histories")
+
 NA = {
  "C02": "pure function of grammar, dictionary, model and frame scores: no schedule, fault, history or crash point; needs an independent max-plus reference (differential testing), another technique family",
  "C05": "pure function of one JSGF text (a compiler-correctness property): nothing to schedule or fault; language enumeration against a JSGF interpreter is the right tool",
